@@ -86,6 +86,19 @@ Proof. unfold hdr_of. cbn [length]. rewrite be_enc_length. reflexivity. Qed.
 
 Global Opaque hdr_of nonce_of.
 
+(* the crypto-for-secret toggle touches nothing but the encryption flag and its own marker *)
+Lemma prepare_secret_same s :
+  key (prepare_secret s) = key s /\ enc_iv (prepare_secret s) = enc_iv s /\ enc_ctr (prepare_secret s) = enc_ctr s.
+Proof. unfold prepare_secret. destruct (key s) eqn:E; [destruct (encrypted s)|]; proj_simpl; rewrite ?E; auto. Qed.
+Lemma restore_secret_same s :
+  key (restore_secret s) = key s /\ enc_iv (restore_secret s) = enc_iv s /\ enc_ctr (restore_secret s) = enc_ctr s.
+Proof. unfold restore_secret. destruct (before_secret s); proj_simpl; auto. Qed.
+Lemma prepare_secret_enc s k : key s = Some k -> encrypted (prepare_secret s) = true.
+Proof. intro H. unfold prepare_secret. rewrite H. destruct (encrypted s) eqn:E; [exact E|reflexivity]. Qed.
+Lemma prepare_secret_marker s k :
+  key s = Some k -> before_secret s = false -> before_secret (prepare_secret s) = negb (encrypted s).
+Proof. intros H Hb. unfold prepare_secret. rewrite H. destruct (encrypted s); [exact Hb|reflexivity]. Qed.
+
 (* what a successful send looks like *)
 Lemma send_frame_ok_len s d fl s' f :
   send_frame s d fl = (s', SOk f) -> lenN d <= MaxMessageSize.
